@@ -277,11 +277,14 @@ def finish(prop, tier, seed, acc, t0, rule, bounds, exhaustive=True, assumptions
         except Exception:  # noqa
             replay_fn = None
     if replay_fn is not None:
+        from .engines.history import fresh_world
         for k in sorted(new)[:12]:
             try:
                 with quiet():
-                    k1 = sorted(x["key"] for x in replay_fn(new[k]["case"]))
-                    k2 = sorted(x["key"] for x in replay_fn(new[k]["case"]))
+                    fresh_world()       # each replay starts from a freshly imported package (process-global state reset)
+                    k1 = sorted(set(x["key"] for x in replay_fn(new[k]["case"])))
+                    fresh_world()
+                    k2 = sorted(set(x["key"] for x in replay_fn(new[k]["case"])))
             except Exception as e:  # noqa
                 k1, k2 = ["<replay raised %r>" % e], None
             if k1 != k2:
